@@ -102,7 +102,10 @@ type c12Step struct {
 }
 
 type c12Behaviour struct {
-	ID    int       `json:"id"`
+	ID int `json:"id"`
+	// Fresh: serve this behaviour with a newly built handler chain (what the
+	// first requests of a server process see) instead of the long-lived one.
+	Fresh bool `json:"fresh"`
 	Steps []c12Step `json:"steps"`
 }
 
@@ -160,6 +163,9 @@ func TestVerifC12(t *testing.T) {
 	pristine := c12Snapshot(parent)
 	dirty := false
 	for _, bh := range in.Behaviours {
+		if bh.Fresh {
+			handler = newHandler(ctx, cfg)
+		}
 		// back to the pristine tree: empty upload bucket, nothing else touched
 		ents, _ := os.ReadDir(filepath.Join(root, cfg.UploadBucket))
 		for _, e := range ents {
